@@ -1166,6 +1166,47 @@ impl VersionSet {
         (level, score >= 1., picked)
     }
 
+    /// As [`VersionSet::verif_pick_probe`] with a recorded seek compaction: `seek` = (level, file
+    /// number) becomes the `file_to_compact` of the version (`None` if no such file).
+    pub(crate) fn verif_pick_probe_with_seek(
+        options: &DbOptions,
+        table_cache: &Arc<TableCache>,
+        files: Vec<Vec<Arc<FileMetadata>>>,
+        pointers: Vec<Option<InternalKey>>,
+        seek: Option<(usize, u64)>,
+    ) -> Option<(usize, Vec<u64>, Vec<u64>)> {
+        use crate::versioning::version::SeekCompactionMetadata;
+        let mut version_set = VersionSet::new(options.clone(), Arc::clone(table_cache));
+        let mut version = Version::new(options.clone(), table_cache, 0, 0);
+        for (level, level_files) in files.into_iter().enumerate().take(MAX_NUM_LEVELS) {
+            version.files[level] = level_files;
+        }
+        version.finalize();
+        if let Some((level, number)) = seek {
+            let file = version.files[level]
+                .iter()
+                .find(|file| file.file_number() == number)
+                .map(Arc::clone);
+            version.set_seek_compaction_metadata(SeekCompactionMetadata {
+                file_to_compact: file,
+                level_of_file_to_compact: level,
+            });
+        }
+        version_set.append_new_version(version);
+        for (level, pointer) in pointers.into_iter().enumerate().take(MAX_NUM_LEVELS) {
+            version_set.compaction_pointers[level] = pointer;
+        }
+        let numbers =
+            |files: &[Arc<FileMetadata>]| files.iter().map(|file| file.file_number()).collect();
+        version_set.pick_compaction().map(|manifest| {
+            (
+                manifest.level(),
+                numbers(manifest.get_compaction_level_files()),
+                numbers(manifest.get_parent_level_files()),
+            )
+        })
+    }
+
     /// Run `VersionSet::compact_range` on a synthetic version. Returns the numbers of the selected
     /// level and parent files and the largest key of the last level file, or `None` when nothing
     /// overlaps the range.
